@@ -32,6 +32,21 @@ STATUSES = (-1, 0, 999, 1000, 1001, 3000, 4999, 65535, 65536, 100000)
 REACTIONS = ("reply", "reply_fast", "reply_slow", "never", "eof", "chatty", "chatty_then_close", "trickle")
 
 
+def _reason(st):
+    """(argument handed to close()/send_close(), bytes expected behind the status): the reason is documented as str or bytes"""
+    n = int(st.get("rlen", 0))
+    kind = st.get("rkind", "bytes")
+    if kind == "bytes":
+        return b"r" * n, b"r" * n
+    if kind == "str":
+        t = "r" * n
+    elif kind == "str8":
+        t = ("\u00e9\u20acx\U0001d11e" * n)[:n]  # 2-, 3-, 1- and 4-byte characters
+    else:
+        raise InvalidScenario("rkind")
+    return t, t.encode("utf-8")
+
+
 def plan(tier, seed):
     items = [{"kind": "grid", "exhaustive": "close(status, timeout) x every peer reaction x every status"}]
     n = 20000 if tier == "quick" else 1600000
@@ -112,7 +127,8 @@ def expand(item, seed):
                 for tmo in (1 * S, 3 * S, S // 2, 0):
                     if not (isinstance(st, int)):
                         continue
-                    yield {"steps": [{"op": "send", "len": 2}, {"op": "close", "status": st, "rlen": 1, "timeout": tmo},
+                    yield {"steps": [{"op": "send", "len": 2}, {"op": "close", "status": st, "rlen": 3, "timeout": tmo,
+                                                               "rkind": ("bytes", "str", "str8")[(tmo // 1024 + (st if isinstance(st, int) else 0)) % 3]},
                                      {"op": "send", "len": 1}, {"op": "ping"}],
                            "script": [], "reaction": reaction, "timeout": None, "seed": 1}
                     for pre in ([], [{"op": "recv"}], [{"op": "send", "len": 3}], [{"op": "send_close", "status": 1000, "rlen": 0}]):
@@ -122,6 +138,12 @@ def expand(item, seed):
                                                    {"op": "send", "len": 1}, {"op": "recv"}, {"op": "ping"},
                                                    {"op": "close", "status": 1000, "rlen": 0, "timeout": tmo}],
                                    "script": script, "reaction": reaction, "timeout": 2 * S, "seed": 1}
+        for endk in ("eof", "reset"):
+            for pre in ([], [{"op": "send", "len": 3}], [{"op": "recv"}]):
+                for nb in (True, False):
+                    yield {"steps": pre + [{"op": "wait", "dt": S}, {"op": "recv"}, {"op": "send", "len": 1}, {"op": "recv"}, {"op": "ping"},
+                                           {"op": "close", "status": 1000, "rlen": 0, "timeout": S}],
+                           "script": [{"t": S // 2, "end": endk}], "reaction": "reply", "timeout": 2 * S, "seed": 1, "nonblocking": nb}
         for tmo in (S, 3 * S):
             for dj in (-30.0, -0.75, 0.75, 30.0):
                 for reaction in ("never", "reply_slow", "chatty"):
@@ -152,9 +174,11 @@ def gen(rng):
         elif r < 0.75:
             steps.append({"op": "close", "status": rng.choice(STATUSES) if rng.random() < 0.5 else 1000,
                           "rlen": rng.choice((0, 0, 5, 123)), "timeout": rng.choice((0, S // 2, S, 3 * S))})
+            if steps[-1]["rlen"] == 5 and rng.random() < 0.5:
+                steps[-1]["rkind"] = rng.choice(("str", "str8"))
         elif r < 0.85:
             steps.append({"op": "send_close", "status": rng.choice(STATUSES) if rng.random() < 0.5 else 1000,
-                          "rlen": rng.choice((0, 3))})
+                          "rlen": rng.choice((0, 3)), "rkind": rng.choice(("bytes", "bytes", "str", "str8"))})
         elif r < 0.9:
             steps.append({"op": "shutdown"})
         else:
@@ -183,6 +207,9 @@ def gen(rng):
         script.sort(key=lambda d: d["t"])
     sc = {"steps": steps, "script": script, "reaction": rng.choice(REACTIONS), "timeout": rng.choice((S, 2 * S)),
           "seed": rng.randrange(1 << 30)}
+    if rng.random() < 0.1 and sc["reaction"] != "trickle":
+        sc["nonblocking"] = True  # settimeout(0) after the handshake; the caller polls
+        return sc
     if rng.random() < 0.2:
         # the transport fails while the client is writing (possibly in the middle of its close frame)
         sc["send_fault"] = {"after_bytes": rng.choice((0, 1, 2, 3, 5, 6, 7, 8, 12, 20)), "errno": rng.choice(("TIMEOUT", "EPIPE", "ECONNRESET"))}
@@ -483,7 +510,7 @@ def run(sc, choices=None):
         for st in steps:
             if st["op"] not in ("send", "recv", "ping", "close", "send_close", "shutdown", "wait"):
                 raise InvalidScenario("op")
-            if st["op"] in ("close", "send_close") and not 0 <= int(st.get("rlen", 0)) <= 123:
+            if st["op"] in ("close", "send_close") and (not 0 <= int(st.get("rlen", 0)) <= 123 or len(_reason(st)[1]) > 123):
                 raise InvalidScenario("rlen")
             if st["op"] == "close" and 0 < int(st.get("timeout", S)) < 1024:
                 raise InvalidScenario("close timeout")
@@ -497,6 +524,9 @@ def run(sc, choices=None):
         elif any(st["op"] == "recv" for st in steps):
             raise InvalidScenario("recv on a blocking socket may legitimately block for ever")
         oc = _reaction_cfg(reaction, 0)
+        nonblocking = bool(sc.get("nonblocking"))
+        if nonblocking and (T is None or sc.get("send_fault") or sc.get("send_stall") or reaction == "trickle"):
+            raise InvalidScenario("nonblocking: plain histories only")
         for it in script:
             if "hex" in it:
                 bytes.fromhex(it["hex"])
@@ -533,6 +563,11 @@ def run(sc, choices=None):
         if T is not None:
             c.settimeout(T / S)
         c.connect(f"ws://{HOST}/")
+        if nonblocking:
+            # the caller polls: from here on a receive call that finds nothing reports "would block"; a loss it finds is a
+            # loss all the same
+            c.settimeout(0)
+            res.probes["nonblocking_socket"] = 1
         conn = w.net.conns[0]
         sock = w.net.sockets[0]
         peer = peers[0]
@@ -555,7 +590,7 @@ def run(sc, choices=None):
             log0 = len(w.k.log)
             exc = None
             ret = None
-            reason = b"r" * int(st.get("rlen", 0)) if op in ("close", "send_close") else b""
+            reason_arg, reason = _reason(st) if op in ("close", "send_close") else (b"", b"")
             try:
                 if op == "send":
                     ret = c.send("x" * int(st.get("len", 1)))
@@ -564,9 +599,9 @@ def run(sc, choices=None):
                 elif op == "ping":
                     c.ping(b"k")
                 elif op == "close":
-                    c.close(int(st["status"]), reason, timeout=int(st.get("timeout", S)) / S)
+                    c.close(int(st["status"]), reason_arg, timeout=int(st.get("timeout", S)) / S)
                 elif op == "send_close":
-                    c.send_close(int(st["status"]), reason)
+                    c.send_close(int(st["status"]), reason_arg)
                 elif op == "shutdown":
                     c.shutdown()
                 else:
